@@ -27,7 +27,7 @@ class C13(TalCheck):
     prop = "C13"
     level = "fault_enumeration"
     gen_opts = {"on_error": 0.5, "max_sites": 24, "pipes": 0.2,
-                "prefixes": 0.15, "macros": 0.2, "i18n": 0.2, "code": 0.1}
+                "prefixes": 0.15, "macros": 0.3, "i18n": 0.2, "code": 0.1}
     plans_per_template = 45
 
     def is_nontrivial(self, plan, r, m) -> bool:
